@@ -9,5 +9,5 @@ assert s.count(old)>=1, "pattern not found"
 open(p,'w').write(s.replace(old,new,1))
 PY
 [ $? -ne 0 ] && exit 1
-for id in "$@"; do /verif/check $id 2>&1 | grep -E "^VIOLATION|  rule|^C[0-9]+:|does not compile|error" | head -12; done
+for id in "$@"; do /verif/check $id 2>&1 | grep -v "^KNOWN-FINDING" | grep -E "^VIOLATION|  rule|^C[0-9]+:|does not compile|error" | head -12; done
 git -C /repo checkout -- .
